@@ -74,6 +74,8 @@ REQUIRED_THEOREMS = [
     "edgeUmbrella_of_linkConnected", "edge_to_cell_order_of_linkConnected",
     # round 7: single-return bodies
     "cell_to_vertex_bridge", "n_F2C_bridge", "id_lists_bridge", "is_cell_tet_bridge", "is_tetrahedral_bridge",
+    # round 8: sets as values, loop with early return, guarded *args
+    "common_face_bridge", "find_range_eq_findIdx?", "in_cell_index_bridge", "in_cell_face_index_bridge", "is_edge_on_border_bridge",
 ]
 
 TRUSTED = [
@@ -1149,16 +1151,13 @@ def _source_map():
     m[V + "VolumeMesh.__init__"] = "translated"
     m[V + "VolumeMesh.enable_boundary_connectivity"] = "translated"
     C = V + "VolumeMesh._Connectivity."
-    for q, note in (("common_face", "Mesh.commonFace"),
-                    ("in_cell_index", "Mesh.inCellIndex"), ("in_cell_face_index", "Mesh.inCellFaceIndex"),
-                    ("cell_to_edge", "Mesh.cellToEdge")):
-        m[C + q] = "modelled: " + note
+    for q, note in (("cell_to_edge", "Mesh.cellToEdge"),):
+        m.setdefault(C + q, "modelled: " + note)
     M = V + "VolumeMesh."
     for q, note in (("__init__", "events of the body in the translated mesh guard table (meshGuards)"),
                     ("enable_boundary_connectivity", "mesh guard table"), ("boundary_mesh", "mesh guard table; identity with boundary_connectivity.mesh by the oracle"),
                     ("id_vertices", "List.range nV"), ("id_edges", "List.range nE"), ("id_faces", "List.range nF"), ("id_cells", "List.range nC"),
                     ("is_vertex_on_border", "Conn.isVertexOnBorder (the flags it reads are translated)"),
-                    ("is_edge_on_border", "Conn.isEdgeOnBorder (the flags it reads are translated)"),
                     ("is_cell_tet", "Mesh.isTetrahedral"), ("is_tetrahedral", "Mesh.isTetrahedral"),
                     ("interior_edges", "guarded read of a translated list"), ("boundary_edges", "guarded read of a translated list"),
                     ("boundary_vertices", "guarded read of a translated list"), ("interior_vertices", "guarded read of a translated list")):
